@@ -57,7 +57,7 @@ def gen(rng, idx, tier):
         "reverseDirection": rng.random() < 0.75,
         "flattenComponents": rng.random() < 0.4,
         "allQuadratic": rng.random() < 0.8,
-        "cubicConversionError": rng.choice([None, None, 0.0005, 0.002, 0.01]),
+        "cubicConversionError": rng.choice([None, None, 0.0005, 0.002, 0.01, 0.0001, 0.00005]),
         "dropImpliedOnCurves": rng.random() < 0.3,
     }
     stratum = "default"
@@ -80,7 +80,7 @@ def gen(rng, idx, tier):
     if interp:
         opts["dropImpliedOnCurves"] = False
     return {"stratum": stratum, "interp": interp,
-            "ufo": {"glyphs": glyphs, "info": {"unitsPerEm": rng.choice([1000, 1000, 2048]),
+            "ufo": {"glyphs": glyphs, "info": {"unitsPerEm": rng.choice([1000, 1000, 2048, 4096]),
                                                "familyName": "T", "styleName": "R"}},
             "lib": rng.choice(["defcon", "ufoLib2"]), "opts": opts, "has_cubic": has_cubic}
 
@@ -219,7 +219,7 @@ def judge_simple(name, exp, got, opts, bound, bump, n_dist):
         how = None
         for variant, (ee, gg) in enumerate(_variants(e, gs)):
             res = T.match_contour(ee, gg, allow_dropped=opts["dropImpliedOnCurves"],
-                                  cubic_ok=not opts["allQuadratic"])
+                                  cubic_ok=not opts["allQuadratic"], max_run=120)
             if res is not None:
                 how = variant
                 break
@@ -257,7 +257,7 @@ def judge_simple(name, exp, got, opts, bound, bump, n_dist):
                 return T.cubic_vs_quads(ecur, eseg[1], eseg[2], eseg[3], gcur, run) <= bound
             ee, gg = list(_variants(e, gs))[how]
             alt = T.match_contour(ee, gg, allow_dropped=opts["dropImpliedOnCurves"],
-                                  cubic_ok=not opts["allQuadratic"], accept=near)
+                                  cubic_ok=not opts["allQuadratic"], max_run=120, accept=near)
             if alt is not None:
                 bump("resegmented_contours")
             else:
